@@ -5,7 +5,7 @@ from core import call_matches, call_names, op_place, op_local, backward_slice
 from props import shared, C05
 
 LEVEL = 'proof'
-FLOOR = 20
+FLOOR = 53      # 70% of the 76 obligation instances derived on the tree the rules were last reviewed against
 EXPLANATION = ('Every lookup and every planned write searches the current index and, unconditionally, every queued older index (ref counts likewise); '
                'old index files are unlinked only by an enacted DropTable record, which is logged only when the batch walk reached the end of the source; '
                'the index swap on growth happens under both the tables and the reindex write locks; reindex batches wait for the triggering record to be '
